@@ -74,6 +74,19 @@ def table() -> dict[str, Prop]:
              assumptions=["mdurl.encode yields percent-encoded URL-safe ASCII (third party)",
                           "the regex facts are decided by handing the extracted *constant* pattern to the re engine; no repository code runs"],
              not_decided="that a rejected destination is left as literal text (behaviour of the fallback path)"))
+    from .rules import bnd_rules as BN, prog_rules as PG, total_rules as TT
+    reg(Prop("C01", "eight structural necessary conditions of totality: no unguarded index into a source string (BND); line tables "
+             "with their sentinel stay in lockstep (SENT); every recursive rule dispatch is capped by maxNesting (NEST); code "
+             "points are validated before chr() (CHR); a rule that reports a match has advanced the cursor, one that does not has "
+             "left it alone (PROG); no local can be read before assignment (DEF); no undocumented raise / assert in the phase "
+             "(RAISE); the CLI decodes file content leniently (CLI)",
+             [BN.rule_bnd, TT.rule_sent, TT.rule_nest, TT.rule_chr, PG.rule_prog, TT.rule_def, TT.rule_raise, TT.rule_cli],
+             assumptions=["negative indices wrap in Python and cannot raise on a non-empty string: only upper bounds are obligations",
+                          "endLine arguments of ParserBlock.tokenize are <= lineMax (all resolved callers pass lineMax, their own "
+                          "endLine or a scanned nextLine)",
+                          "image re-enters the inline parser on a fresh state; its depth is bounded by the label scan's skipToken guard (not checked)"],
+             not_decided="totality itself: termination of every scan loop (only 'a match advances the cursor' is decided, not strict "
+                         "increase), absence of every exception class (KeyError / ValueError from int(), RecursionError inside re)"))
     return props
 
 
@@ -85,6 +98,9 @@ NOT_APPLICABLE["C06"] = ("a metamorphic relation between the parses of two diffe
                          "frames) are claimed under C07 and C17 instead")
 
 TECHNIQUE = {
+    "C01": "zone (difference-bound) dataflow over per-function CFGs for index bounds with validated entry contracts; value "
+           "numbering with symbolic entry values for cursor progress / restoration; definite-assignment dataflow with flag "
+           "correlation; sibling lockstep and who-may-raise queries",
     "C04": "taint-style decomposition of renderer return values over reaching definitions; dominance of the html-option test "
            "via predicate dataflow; literal-vocabulary check of all token construction sites",
     "C05": "forward dataflow over per-function CFGs with a sanitizer lattice (Const/Env/NormChecked/NormUnchecked/Raw); "
